@@ -33,6 +33,11 @@ def bounds(tier):
             "magnitudes": "all of int64 (solver variables)"}
 
 
+def _kv(x):
+    """Key / common value as the scalar it holds (a NumPy scalar handed in by the caller stays one in the index)."""
+    return x.scalar_value() if isinstance(x, snp.ndarray) else x
+
+
 def _onto(n, k):
     for f in itertools.product(range(k), repeat=n):
         if len(set(f)) == k:
@@ -96,6 +101,11 @@ def configs(tier, seed):
             if tier == "quick" and (i % 4) and not (mapping == "m2o" and back == "dtype") and not (common == "absent" and mapping == "none" and back == "dtype" and not counts):
                 continue
             out.append(dict(shape=shape, pattern=pat, k=k, common=common, counts=counts, mapping=mapping, back=back))
+    # caller-supplied counts and common value given as NumPy scalars (what numpy.unique(..., return_counts=True) hands out)
+    for shape, pat, k in (([3], [0, 1, 0], 2), ([2, 2], [0, 1, 1, 0], 2)):
+        for common in ("present", "omit"):
+            for back in ("default", "dtype"):
+                out.append(dict(shape=shape, pattern=pat, k=k, common=common, counts=True, mapping="none", back=back, npkeys=True))
     return out
 
 
@@ -161,6 +171,12 @@ def explore(cfg, eng, ctx, only=None):
         counts = None
         if cfg["counts"]:
             counts = {SKey(d[i]): pat.count(i) for i in range(k)}
+        if cfg.get("npkeys"):
+            # the same values as NumPy int64 scalars
+            np_ = lambda key: snp.mkscalar(key, rnp.dtype(rnp.int64))
+            counts = {np_(key): c for key, c in counts.items()}
+            if common_in is not None:
+                common_in = np_(common_in)
         o = rnp.empty(ncells, dtype=object)
         for p, cl in enumerate(pat):
             o[p] = SKey(d[cl])
@@ -173,7 +189,7 @@ def explore(cfg, eng, ctx, only=None):
         def builder(model):
             ev = lambda t: model.eval(t, model_completion=True).as_long()
             return dict(kind="roundtrip", shape=list(shape), pattern=pat, d=[ev(x) for x in d], common=None if common_t is None else ev(common_t),
-                        counts=cfg["counts"], mapping=None if mapping is None else [[ev(it(a)), ev(it(b))] for a, b in mapping.items()],
+                        npkeys=bool(cfg.get("npkeys")), counts=cfg["counts"], mapping=None if mapping is None else [[ev(it(a)), ev(it(b))] for a, b in mapping.items()],
                         back=cfg["back"], u=[ev(u) for u in uvars])
         ctx.case_builder = builder
         try:
@@ -222,7 +238,8 @@ def explore(cfg, eng, ctx, only=None):
         # the index itself: well-formed, and a library-chosen common value is a most frequent one
         wf = [z3.BoolVal(isinstance(ix.shape, tuple) and tuple(ix.shape) == shape)]
         for key, arr in dict.items(ix):
-            wf.append(bt(S.e_ne(key[0], ix.common)))
+            wf.append(bt(S.e_ne(_kv(key[0]), _kv(ix.common))))
+            wf.append(z3.BoolVal(not isinstance(key[0], snp.ndarray)))      # coordinates are plain ints, never NumPy scalars (validate())
             okarr = isinstance(arr, snp.ndarray) and arr.d == rnp.dtype(rnp.uint32) and arr.o.ndim == 1
             wf.append(z3.BoolVal(bool(okarr)))
             if okarr:
@@ -240,7 +257,7 @@ def explore(cfg, eng, ctx, only=None):
             fc = []
             for cl in cnt:
                 fc.append(z3.Sum([z3.If(final(c2) == final(cl), cnt[c2], 0) for c2 in cnt]))
-            mine = z3.Sum([z3.If(final(c2) == it(ix.common), cnt[c2], 0) for c2 in cnt])
+            mine = z3.Sum([z3.If(final(c2) == it(_kv(ix.common)), cnt[c2], 0) for c2 in cnt])
             eng.assert_(z3.And([mine >= x for x in fc]), "library-chosen common value is not a most frequent value")
         eng.assert_(z3.BoolVal(all(a is b for a, b in zip(vsnap.reshape(-1), values.o.reshape(-1)))), "from_array changed its input array")
         ctx.end_path()
